@@ -20,7 +20,14 @@ Dates of every written form are part of it as well: `DATE=AUX` in the header, `;
 each journal reported with or without --aux-date; per posting, the date a reader recovers (xml:
 the posting's <date> if present else the transaction's, and <aux-date> likewise, compared with the
 register run without and with --aux-date; csv: the date column; emacs: the transaction's time value)
-must be the register's %(date) for the same query."""
+must be the register's %(date) for the same query.
+The note column of the csv output is judged against the note text of the journal itself (the
+register's plain %(note); a line break written as the two characters \\n), never against ledger's
+own join().  One journal in four comes from a second stream whose fields (and commodity symbols) also
+hold control bytes, non-letter code points or bytes outside UTF-8: outside the property's quantifier,
+compared with the model only.  Options that act after the calculation are part of the command space:
+--display PREDICATE (all commands; the xml report must list the displayed postings only) and
+--group-by payee (emacs: still one balanced, readable output)."""
 import csv, io, os, re
 import xml.etree.ElementTree as ET
 from fractions import Fraction as F
@@ -30,12 +37,13 @@ META = dict(
     id='C18',
     level='proof',
     technique='Coq proof (decode . encode = id for the emacs, csv and xml escaping functions against reader specifications; token/parenthesis structure of the emacs writer; element structure of the xml writer) + differential correspondence of the extracted writers against ledger + python csv/xml.etree/S-expression oracles',
-    level_text='Theorems in coq/Properties/Properties_C18.v state for ALL byte strings that the Emacs-Lisp reader recovers every string escape_string writes, that the whole emacs output lexes to the expected balanced token list and reads back as the tree (file line (hi lo 0) code payee (line account amount state [cost] [note])...); that XML character-data decoding inverts boost\'s entity encoding, the encoded text has no raw < and no & outside the six references, and a tag scanner finds in what the modelled property-tree writer prints exactly the elements of the tree, properly nested (for the transactions, accounts and commodities sections ledger builds, whatever the journal texts are); that an RFC 4180 reader recovers every row written with quoted_rfc; that the DEFAULT csv format (regenerated from report.h on every run) is recovered by the backslash-escape reader for ALL field contents (quoted() escapes both the double quote and the backslash), and by the RFC 4180 reader when no field holds a double quote or a backslash (the RFC reader is refuted by witnesses for each of the two characters - a statement about that reader; the property asks for one conventional reader). Payee overrides (`; Payee: X` tags) are modelled as the code resolves them (post_t::payee(): the stored payee, else the inherited tag, else the header); how the payee is stored is a fact regenerated from textual.cc on every run (Gen/PayeeRule.v: fixed when the posting line is read, or also updated by a Payee tag on a later note line), which selects the model rule and the statement of xml_payee_faithful: with the later-line update the payee an xml reader recovers (posting <payee> else transaction <payee>) is proved equal to the register payee for every posting whose later Payee tags carry a value; with the payee fixed at the posting line that holds only without later-line tags or without a stored payee and is refuted by a witness (finding F116). Dates are modelled as post_t::date() resolves them (the own date or auxiliary date of the posting, else that of the transaction, under either --aux-date setting): the xml tree is proved to carry _date under <date> and _date_aux under <aux-date> for transactions and postings (xml_date_elements), the dates a reader recovers from them are proved to be those of the register without and with --aux-date (xml_dates_faithful), the csv date cell is post_t::date(), and the emacs time value, one per transaction, equals it only for postings without dates of their own (refuted by witness, finding F150). The csv payee cell is proved to be post_t::payee(); the emacs payee, one per transaction, equals it only when no tag is present (refuted by witness, finding F115). The model is tied to the code by comparing, byte for byte, ledger\'s csv (default and generated formats), emacs and xml (transactions, account tree, commodities) output with the extracted model on generated journals, and its reader specifications are cross-checked against python csv, expat and an S-expression reader on ledger\'s real output.',
+    level_text='Theorems in coq/Properties/Properties_C18.v state for ALL byte strings that the Emacs-Lisp reader recovers every string escape_string writes, that the whole emacs output lexes to the expected balanced token list and reads back as the tree (file line (hi lo 0) code payee (line account amount state [cost] [note])...); that XML character-data decoding inverts boost\'s entity encoding, the encoded text has no raw < and no & outside the six references, and a tag scanner finds in what the modelled property-tree writer prints exactly the elements of the tree, properly nested (for the transactions, accounts and commodities sections ledger builds, whatever the journal texts are); that an RFC 4180 reader recovers every row written with quoted_rfc; that the DEFAULT csv format (regenerated from report.h on every run) is recovered by the backslash-escape reader for ALL field contents (quoted() escapes both the double quote and the backslash), and by the RFC 4180 reader when no field holds a double quote or a backslash (the RFC reader is refuted by witnesses for each of the two characters - a statement about that reader; the property asks for one conventional reader). Payee overrides (`; Payee: X` tags) are modelled as the code resolves them (post_t::payee(): the stored payee, else the inherited tag, else the header); how the payee is stored is a fact regenerated from textual.cc on every run (Gen/PayeeRule.v: fixed when the posting line is read, or also updated by a Payee tag on a later note line), which selects the model rule and the statement of xml_payee_faithful: with the later-line update the payee an xml reader recovers (posting <payee> else transaction <payee>) is proved equal to the register payee for every posting whose later Payee tags carry a value; with the payee fixed at the posting line that holds only without later-line tags or without a stored payee and is refuted by a witness (finding F116). Dates are modelled as post_t::date() resolves them (the own date or auxiliary date of the posting, else that of the transaction, under either --aux-date setting): the xml tree is proved to carry _date under <date> and _date_aux under <aux-date> for transactions and postings (xml_date_elements), the dates a reader recovers from them are proved to be those of the register without and with --aux-date (xml_dates_faithful), the csv date cell is post_t::date(), and the emacs time value, one per transaction, equals it only for postings without dates of their own (refuted by witness, finding F150). The note cell of the csv row goes through join(): the chain of tests of report_t::fn_join on its plain `char` loop variable is regenerated from report.cc on every run (Gen/JoinRule.v) and evaluated by the model on the SIGNED value of the byte; join_keeps_bytes proves for all byte strings that every byte other than the line feed - bytes >= 0x80 and control bytes included - is copied, join_one_line that the result holds no line feed, join_unjoin that a reader of the two characters backslash n recovers a note of several lines without backslash, csv_note_cell_faithful that the note cell of the default row is the posting\'s note followed by the transaction\'s whenever that is one line. The csv payee cell is proved to be post_t::payee(); the emacs payee, one per transaction, equals it only when no tag is present (refuted by witness, finding F115). The model is tied to the code by comparing, byte for byte, ledger\'s csv (default and generated formats), emacs and xml (transactions, account tree, commodities) output with the extracted model on generated journals, and its reader specifications are cross-checked against python csv, expat and an S-expression reader on ledger\'s real output.',
     level_note='Trusted: Coq kernel; extraction + OCaml driver and this harness for the correspondence. boost::property_tree\'s XML writer and entity encoder are modelled (Model/Escape.v write_el, xml_encode) and validated by the correspondence, not verified. Amount texts (quantity, commodity, annotated amount) are taken from the register report, as the property text does. The running <total>, <account-amount>, <account-total> subtrees and the id/ref addresses of the xml output are not compared.',
     design_ref='DESIGN.md section 7 C18, section 9 F10 (repaired by /repo 3212d62)',
     assumptions=['the reports run without --effective/--date overrides other than --aux-date; dates lie between 1901/01/01 and 9999/12/31 (boost gregorian) in %Y/%m/%d form', 'free-text fields survive journal parsing unchanged (see EXCLUSIONS in harness/props/c18.py): no tab/newline inside a field, no double space, a payee does not start with `(` unless a code precedes it nor with `*`/`!` on an uncleared transaction, a code has no `)`, an account name is not wrapped in ()/[]/<>, has no empty `:` component and does not start with `;` `*` `!`, a free-text note has no token starting or ending with `:` and no `[` before a digit or `=` (date override); metadata is generated in dedicated note lines (`Key: value`, `:tag:tag:`, `Payee: X`) with string values only (no `Key:: expr`), and no bare `:Payee:` tag',
                  'quoted commodity symbols contain no double quote and no backslash (commodity scanner escapes)',
-                 'control characters (outside the property\'s quantifier) are not generated: boost writes them raw, which is not well-formed XML 1.0'],
+                 'control bytes, non-letter code points (C1 controls, no-break space, line separator, BOM ...) and bytes outside UTF-8 lie outside the property\'s quantifier: a second generator stream puts them into every field and into commodity symbols and compares ledger with the model byte for byte, without an oracle verdict (boost writes them raw, which is not well-formed XML 1.0); NUL, tab, newline, VT, FF, CR are never inside a field (the line reader ends or trims there)',
+                 'report options: --aux-date, an account query, --display PREDICATE (every command), --group-by payee (emacs; the writer across groups is judged by the oracle only, finding F1802)'],
 )
 
 EXCLUSIONS = {
@@ -1040,7 +1048,7 @@ def oracle(rec, rows, res):
             col = [i for i in range(len(w)) if recovered[0][0][i] != w[i]][0]
             viol('csv-default:%s-not-the-journal-text' % CSV_ORDER[col],
                  'default csv output: the %s a csv reader recovers from this row is not the text the journal (and the register) has' % CSV_ORDER[col],
-                 dict(row=ln, recovered=recovered[0][0][col].encode('latin-1').decode('utf-8', 'replace')),
+                 dict(row=ln.encode('latin-1').decode('utf-8', 'replace'), recovered=recovered[0][0][col].encode('latin-1').decode('utf-8', 'replace')),
                  w[col].encode('latin-1').decode('utf-8', 'replace'))
             break
     if rec['fkind'] == 'all-rfc':
